@@ -5,5 +5,5 @@ D=$(mktemp -d /tmp/mut.XXXXXX)
 cp -r /repo/pytoniq_core $D/
 for e in "$@"; do sed -i "$e" $D/$file; done
 if diff -q /repo/$file $D/$file >/dev/null; then echo "MUTATION DID NOT APPLY"; rm -rf $D; exit 2; fi
-cd /verif && VERIF_REPO=$D VERIF_NOREPLAYFILES=1 ./check $prop ${TIER:-quick} 2>&1 | grep -E "VIOLATION|obligation=|UNDECIDED|CHECKER|discharged" | head -${LINES_MAX:-12}
+cd /verif && VERIF_REPO=$D VERIF_REPLAY_DIR=$D/replays ./check $prop ${TIER:-quick} 2>&1 | grep -E "VIOLATION|obligation=|UNDECIDED|CHECKER|discharged" | head -${LINES_MAX:-12}
 rm -rf $D
